@@ -19,14 +19,16 @@ import (
 // ---------------------------------------------------------------- types
 
 type fnType struct {
-	k      string // int bool byte untyped elem slice string func view obj map struct
-	elem   *fnType
-	name   string // elem: the Go type-parameter name; obj: the Coq name of the state type; struct: the Go type name
-	params []*fnType
-	res    []*fnType
-	key    *fnType       // map: the key type
-	decl   *ast.TypeSpec // struct: its declaration
-	fnames []string      // struct: the field names (their types are in res)
+	k        string // int bool byte untyped elem slice string func view obj map struct
+	elem     *fnType
+	name     string // elem: the Go type-parameter name; obj: the Coq name of the state type; struct: the Go type name
+	params   []*fnType
+	res      []*fnType
+	key      *fnType       // map: the key type
+	decl     *ast.TypeSpec // struct: its declaration
+	fnames   []string      // struct: the field names (their types are in res)
+	variadic bool          // func: the last parameter is variadic (a list)
+	nilable  bool          // map: nil-ness is represented (go_nmap = option go_map); all maps but unnamed-map struct fields
 }
 
 var (
@@ -36,6 +38,7 @@ var (
 	tyUntyped = &fnType{k: "untyped"}
 	tyString  = &fnType{k: "string"}
 	tyView    = &fnType{k: "view"}
+	tyUnit    = &fnType{k: "unit"}
 )
 
 func (t *fnType) isNum() bool { return t.k == "int" || t.k == "byte" || t.k == "untyped" }
@@ -55,7 +58,12 @@ func (t *fnType) coq() string {
 	case "raw", "obj":
 		return t.name
 	case "map":
+		if t.nilable {
+			return "go_nmap " + parenT(t.key.coq()) + " " + parenT(t.elem.coq())
+		}
 		return "go_map " + parenT(t.key.coq()) + " " + parenT(t.elem.coq())
+	case "unit":
+		return "unit"
 	case "struct":
 		s := t.name
 		for _, p := range t.params {
@@ -300,12 +308,14 @@ type fnVar struct {
 	obj      *ast.Object
 	pos      token.Pos // declaration position (locals)
 	rangeKey bool      // the counter of a range loop: must not be assigned in the body
+	ptr      bool      // a parameter/receiver of type *M (M a map type): *x denotes the variable
 }
 
 type fnParam struct {
-	v       *fnVar
-	mutated bool // slice parameter stored into: its final elements are returned
-	goName  string
+	v        *fnVar
+	mutated  bool // slice parameter stored into / map parameter changed: its final value is returned
+	goName   string
+	variadic bool // items ...T: the remaining arguments as a list
 }
 
 type fnFunc struct {
@@ -327,6 +337,8 @@ type fnFunc struct {
 	recvType  string          // the struct whose methods can be called on the receiver (methods, literals, constructors)
 	ctor      *ctorInfo       // a constructor: q := &T{...} ... return q
 	retRecv   bool            // the Go result is the receiver itself: not a result of the translation
+	namedRecv bool            // a method of a named map type (type Set[T] map[T]struct{}): the receiver is the first parameter
+	retFresh  bool            // every map result is a new map (make, maps.Clone, such a call, or a local only assigned those)
 	fatFields map[string]bool // slice fields with a tracked capacity (companion argument <field>_spare)
 	reshapes  map[string]bool // fields assigned as a whole (re-sliced, appended to, replaced), here or in a callee
 	litOf     string          // ... and the function it sits in
@@ -355,6 +367,7 @@ type fnGen struct {
 	structs map[string]*ast.TypeSpec
 	consts  map[string]ast.Expr
 	ifaces  map[string]*ast.TypeSpec
+	named   map[string]*ast.TypeSpec // named map types of the file (type Set[T comparable] map[T]struct{})
 	// structs of the file used as values: emitted as Records, in declaration order
 	structOrder []string
 	usedStructs map[string]bool
@@ -374,38 +387,42 @@ type fnBind struct {
 }
 
 type loopCtx struct {
+	ranged *fnVar // the map this loop ranges over
 	hasRet bool
 	cont   func() term // what `continue` / the end of the body does
 	brk    func() term
 }
 
 type fnCtx struct {
-	g        *fnGen
-	fn       *fnFunc
-	vars     map[*ast.Object]*fnVar
-	fields   map[string]*fnVar
-	logs     map[string]*fnVar
-	cbs      map[string]*fnVar // function-typed fields used as pure callbacks
-	used     map[string]bool
-	all      []*fnVar
-	ntmp     int
-	nloop    int
-	fix      []string // emitted Fixpoints, in emission order (inner loops first)
-	loops    []*loopCtx
-	zero     *fnVar            // the zero value of fn.zeroType (the first of zeros)
-	zeros    map[string]*fnVar // type parameter -> its zero value argument
-	objs     map[string]*objInfo
-	body     *ast.BlockStmt // the body without the mutex prologue
-	tparams  map[string]bool
-	elemT    map[string]*fnType // type parameter name -> its representation
-	retNames []*fnVar           // named results
-	fuel     bool
-	synth    map[ast.Node]*fnVar
-	synthLim map[ast.Node]*fnVar
-	loopDone map[ast.Node]string
-	loopInfo map[string]*loopInfo
-	extras   map[string]*fnVar // by key
-	fat      map[*fnVar]*fnVar // slice variable -> the rest of its backing array (up to cap)
+	g          *fnGen
+	fn         *fnFunc
+	vars       map[*ast.Object]*fnVar
+	fields     map[string]*fnVar
+	logs       map[string]*fnVar
+	cbs        map[string]*fnVar // function-typed fields used as pure callbacks
+	used       map[string]bool
+	all        []*fnVar
+	ntmp       int
+	nloop      int
+	fix        []string // emitted Fixpoints, in emission order (inner loops first)
+	loops      []*loopCtx
+	zero       *fnVar            // the zero value of fn.zeroType (the first of zeros)
+	zeros      map[string]*fnVar // type parameter -> its zero value argument
+	objs       map[string]*objInfo
+	body       *ast.BlockStmt // the body without the mutex prologue
+	tparams    map[string]bool
+	elemT      map[string]*fnType // type parameter name -> its representation
+	retNames   []*fnVar           // named results
+	fuel       bool
+	synth      map[ast.Node]*fnVar
+	synthLim   map[ast.Node]*fnVar
+	synthKey   map[ast.Node]*fnVar
+	foreignPkg string // while the signature of a method of another package is read: that package
+	noMapMut   bool   // the body changes no map at all: map variables may be copied (read-only aliases)
+	loopDone   map[ast.Node]string
+	loopInfo   map[string]*loopInfo
+	extras     map[string]*fnVar // by key
+	fat        map[*fnVar]*fnVar // slice variable -> the rest of its backing array (up to cap)
 }
 
 func (c *fnCtx) lostAt(n ast.Node, format string, args ...any) {
@@ -511,10 +528,33 @@ func (c *fnCtx) goType(e ast.Expr) *fnType {
 		if t := c.structTypeOf(v); t != nil {
 			return t
 		}
+		if t := c.namedMapTypeOf(v); t != nil {
+			return t
+		}
 	case *ast.IndexExpr, *ast.IndexListExpr:
 		if t := c.structTypeOf(v); t != nil {
 			return t
 		}
+		if t := c.namedMapTypeOf(v); t != nil {
+			return t
+		}
+		if base, args := baseAndArgs(v); base != nil {
+			if sel, ok := base.(*ast.SelectorExpr); ok {
+				if t := c.foreignNamedMapTypeOf(sel, args); t != nil {
+					return t
+				}
+			}
+		}
+	case *ast.SelectorExpr:
+		if t := c.foreignNamedMapTypeOf(v, nil); t != nil {
+			return t
+		}
+	case *ast.StructType:
+		if v.Fields == nil || len(v.Fields.List) == 0 {
+			return tyUnit
+		}
+	case *ast.Ellipsis:
+		return &fnType{k: "slice", elem: c.goType(v.Elt)}
 	case *ast.MapType:
 		kt, vt := c.goType(v.Key), c.goType(v.Value)
 		switch kt.k {
@@ -523,11 +563,11 @@ func (c *fnCtx) goType(e ast.Expr) *fnType {
 			c.lostAt(e, "map key type %s", src(v.Key))
 		}
 		switch vt.k {
-		case "int", "byte", "bool", "string", "elem", "struct":
+		case "int", "byte", "bool", "string", "elem", "struct", "unit":
 		default:
 			c.lostAt(e, "map value type %s (aliasing)", src(v.Value))
 		}
-		return &fnType{k: "map", key: kt, elem: vt}
+		return &fnType{k: "map", key: kt, elem: vt, nilable: true}
 	case *ast.ArrayType:
 		if v.Len == nil {
 			return &fnType{k: "slice", elem: c.goType(v.Elt)}
@@ -535,6 +575,9 @@ func (c *fnCtx) goType(e ast.Expr) *fnType {
 	case *ast.FuncType:
 		t := &fnType{k: "func"}
 		if v.Params != nil {
+			if n := len(v.Params.List); n > 0 {
+				_, t.variadic = v.Params.List[n-1].Type.(*ast.Ellipsis)
+			}
 			for _, f := range v.Params.List {
 				n := len(f.Names)
 				if n == 0 {
@@ -559,6 +602,15 @@ func (c *fnCtx) goType(e ast.Expr) *fnType {
 		return t
 	case *ast.ParenExpr:
 		return c.goType(v.X)
+	}
+	if c.foreignPkg != "" {
+		// an unqualified name inside the other package
+		base, args := baseAndArgs(e)
+		if id, ok := base.(*ast.Ident); ok {
+			if t := c.foreignNamedMapTypeOf(&ast.SelectorExpr{X: ast.NewIdent(c.foreignPkg), Sel: id}, args); t != nil {
+				return t
+			}
+		}
 	}
 	c.lostAt(e, "type %s", src(e))
 	return nil
@@ -593,7 +645,7 @@ func (c *fnCtx) typeParams(fl *ast.FieldList) {
 
 func fnGenerate(f *ast.File, specs []string) (string, []string) {
 	g := &fnGen{file: f, funcs: map[string]*fnFunc{}, byCall: map[string]*fnFunc{}, structs: map[string]*ast.TypeSpec{}, consts: pkgConsts(f),
-		ifaces: map[string]*ast.TypeSpec{}, usedStructs: map[string]bool{}, recordText: map[string]string{}, writes: map[string][]string{},
+		ifaces: map[string]*ast.TypeSpec{}, named: map[string]*ast.TypeSpec{}, usedStructs: map[string]bool{}, recordText: map[string]string{}, writes: map[string][]string{},
 		foreign: map[string][]*ast.File{}}
 	for _, d := range f.Decls {
 		if gd, ok := d.(*ast.GenDecl); ok && gd.Tok == token.TYPE {
@@ -605,6 +657,9 @@ func fnGenerate(f *ast.File, specs []string) (string, []string) {
 				}
 				if _, ok := ts.Type.(*ast.InterfaceType); ok {
 					g.ifaces[ts.Name.Name] = ts
+				}
+				if _, ok := ts.Type.(*ast.MapType); ok {
+					g.named[ts.Name.Name] = ts
 				}
 			}
 		}
@@ -640,6 +695,9 @@ func fnGenerate(f *ast.File, specs []string) (string, []string) {
 			fn.ctor, fn.recvVar, fn.recvObj, fn.recvType = ci, ci.v, ci.obj, ci.tname
 		}
 		fn.fatFields, fn.reshapes = map[string]bool{}, map[string]bool{}
+		if fn.decl != nil && g.named[fn.recvType] != nil {
+			fn.namedRecv = true
+		}
 		g.order = append(g.order, fn)
 		g.funcs[sp] = fn
 		if _, dup := g.byCall[fn.name]; dup {
@@ -737,8 +795,15 @@ func (g *fnGen) calleeOf(fn *fnFunc, call *ast.CallExpr) *fnFunc {
 			return cal
 		}
 	case *ast.SelectorExpr:
-		if id, ok := f.X.(*ast.Ident); ok && fn.recvVar != "" && id.Name == fn.recvVar {
+		if id, ok := f.X.(*ast.Ident); ok && fn.recvVar != "" && id.Name == fn.recvVar && !fn.namedRecv {
 			if cal, ok := g.byCall[f.Sel.Name]; ok && cal.recv != "" && cal.recv == fn.recvType {
+				return cal
+			}
+		}
+		// x.M(...) with M a translated method of a named map type: x (a variable, *x or (*x)) is
+		// its first argument; that x has that type is checked when the call is translated
+		if cal, ok := g.byCall[f.Sel.Name]; ok && cal.namedRecv {
+			if id, ok := derefIdent(f.X); ok && id.Obj != nil && id.Obj.Kind == ast.Var {
 				return cal
 			}
 		}
